@@ -402,4 +402,59 @@ theorem c18_regions_sorted_test_unsound :
 /-- the premises are satisfiable: plenum below and above, in any order -/
 example : checkRegions (10 : ℚ) [(8, 10), (0, 2)] = .ok () ∧ roddedBnds (10 : ℚ) [(8, 10), (0, 2)] = (2, 8) := by decide +kernel
 
+/-! ### attributes of the regions (defect 65)
+
+`checkRegionsFull` puts the two attribute tests of the reader in front of the bound tests. -/
+
+theorem checkAttrs_ok (attrs : List (K × Bool)) (h : checkAttrs attrs = .ok ()) :
+    ∀ a ∈ attrs, 0 < a.1 ∧ a.2 = true := by
+  induction attrs with
+  | nil => intro a ha; simp at ha
+  | cons x t ih =>
+    obtain ⟨vf, known⟩ := x
+    unfold checkAttrs at h
+    by_cases h1 : vf ≤ 0
+    · simp [h1] at h
+    · by_cases h2 : known = true
+      · simp [h1, h2] at h
+        intro a ha
+        rcases List.mem_cons.mp ha with rfl | ha'
+        · exact ⟨not_le.mp h1, h2⟩
+        · exact ih h a ha'
+      · simp [h1, h2] at h
+
+/-- **Acceptance (complete).**  An accepted list of regions has a positive coolant fraction and an existing model in every region,
+and everything `c18_regions_accept` says about the bounds. -/
+theorem c18_regions_full_accept (L : K) (regs : List (K × K)) (attrs : List (K × Bool))
+    (h : checkRegionsFull L regs attrs = .ok ()) :
+    (∀ a ∈ attrs, 0 < a.1 ∧ a.2 = true) ∧ checkRegions L regs = .ok () := by
+  unfold checkRegionsFull at h
+  cases ha : checkAttrs attrs with
+  | error e => rw [ha] at h; simp at h
+  | ok u =>
+    rw [ha] at h
+    cases hb : checkRegions L regs with
+    | error e => rw [hb] at h; simp at h
+    | ok v => exact ⟨checkAttrs_ok attrs (by rw [ha]), by cases v; rfl⟩
+
+/-- a region without coolant is refused, wherever it stands, unless an earlier region already fails -/
+theorem c18_regions_reject_no_coolant (L : K) (regs : List (K × K)) (attrs : List (K × Bool))
+    (h : ∃ a ∈ attrs, a.1 ≤ 0) : checkRegionsFull L regs attrs ≠ .ok () := by
+  intro hok
+  obtain ⟨a, ha, hle⟩ := h
+  have := (c18_regions_full_accept L regs attrs hok).1 a ha
+  exact absurd this.1 (not_lt.mpr hle)
+
+/-- a region with an unknown model name is refused -/
+theorem c18_regions_reject_unknown_model (L : K) (regs : List (K × K)) (attrs : List (K × Bool))
+    (h : ∃ a ∈ attrs, a.2 = false) : checkRegionsFull L regs attrs ≠ .ok () := by
+  intro hok
+  obtain ⟨a, ha, hf⟩ := h
+  have := (c18_regions_full_accept L regs attrs hok).1 a ha
+  rw [hf] at this
+  exact absurd this.2 (by decide)
+
+/-- non-vacuity: a lower reflector with coolant and the `simple` model is accepted -/
+example : checkRegionsFull (1 : ℚ) [(0, 1/4)] [(3/10, true)] = .ok () := by decide +kernel
+
 end Dassh.Props.C18Regions
